@@ -286,7 +286,7 @@ func cmdCheck(eng *Engine, args []string) int {
 				body += "query: " + qp + "\n"
 			}
 			replayed := false
-			if u.FType != nil || (ob.Result == "sat" && ob.Model != "") || id == "C16" || id == "C03" {
+			if u.FType != nil || (ob.Result == "sat" && ob.Model != "") || id == "C16" || id == "C03" || id == "C17" {
 				if rep := tryReplay(eng, u, ob, verifDir); rep != "" {
 					body += "\nreplay on the real code:\n" + rep
 					replayed = strings.Contains(rep, "REPRODUCED")
@@ -317,6 +317,8 @@ func cmdCheck(eng *Engine, args []string) int {
 	// finite-domain obligations (complete evaluation of the real code)
 	scanResults := append(append(eng.finiteDomain(id, tmp), eng.confinedChecks(id)...), eng.mapOrderChecks(id)...)
 	scanResults = append(scanResults, eng.errDynTypeChecks(id)...)
+	scanResults = append(scanResults, eng.recoverBoundaryChecks(id)...)
+	scanResults = append(scanResults, eng.loopVarChecks(id)...)
 	scanResults = append(scanResults, eng.quotedParamChecks(id)...)
 	if id == "C16" {
 		scanResults = append(scanResults, eng.repeatChecks(id)...)
@@ -358,6 +360,12 @@ func cmdCheck(eng *Engine, args []string) int {
 			violation(r.Name, fmt.Sprintf("obligation: %s\nkind: bounded check of the real code (go test -overlay harness, nothing written to /repo)\ngoal: %s\nREPRODUCED on the real code:\n%s\n", r.Name, r.Goal, r.Detail), false)
 		} else if strings.Contains(r.Name, "/finite-domain/") {
 			violation(r.Name, fmt.Sprintf("obligation: %s\nkind: finite-domain\ngoal: %s\nREPRODUCED on the real code (go test -overlay harness in package directive):\n%s\n", r.Name, r.Goal, r.Detail), false)
+		} else if id == "C17" {
+			if openapiReplayMemo == "" {
+				openapiReplayMemo = replayOpenAPI(eng)
+			}
+			violation(r.Name, fmt.Sprintf("obligation: %s\nkind: whole-module SSA scan\ngoal: %s\n%s\n\nreplay on the real code:\n%s", r.Name, r.Goal, r.Detail, openapiReplayMemo),
+				!strings.Contains(openapiReplayMemo, "REPRODUCED input"))
 		} else if id == "C16" {
 			if repeatReplay == "" {
 				if repeatReplayMemo == "" {
@@ -370,6 +378,17 @@ func cmdCheck(eng *Engine, args []string) int {
 		} else {
 			violation(r.Name, fmt.Sprintf("obligation: %s\nkind: whole-module SSA scan\ngoal: %s\n%s\n", r.Name, r.Goal, r.Detail), true)
 		}
+	}
+	if id == "C17" && tier == "thorough" {
+		if openapiReplayMemo == "" {
+			openapiReplayMemo = replayOpenAPI(eng)
+		}
+		if strings.Contains(openapiReplayMemo, "REPRODUCED input") {
+			violation("kit.JApi.ToOpenAPIJson/export-documents/bounded#1", "bounded check: OpenAPI export of documents on the real code\n"+openapiReplayMemo, false)
+		} else if !strings.Contains(openapiReplayMemo, "DONE tried=") {
+			violation("kit.JApi.ToOpenAPIJson/export-documents/harness#1", "bounded check did not run:\n"+openapiReplayMemo, true)
+		}
+		boundedNote = strings.TrimSpace(openapiReplayMemo)
 	}
 	if id == "C03" && tier == "thorough" {
 		// bounded cross-check on the real code (never counted as proved)
@@ -517,6 +536,7 @@ func expectedMin(verifDir, id string) int {
 // tryReplay: hook for replaying a solver model on the real code (see replay.go).
 var repeatReplayMemo string
 var faultReplayMemo string
+var openapiReplayMemo string
 
 func tryReplay(eng *Engine, u *Unit, ob *Obligation, verifDir string) string {
 	if hasProp(ob.Props, "C16") && !hasProp(ob.Props, "C01") {
@@ -524,6 +544,12 @@ func tryReplay(eng *Engine, u *Unit, ob *Obligation, verifDir string) string {
 			repeatReplayMemo = replayRepeat(eng)
 		}
 		return repeatReplayMemo
+	}
+	if hasProp(ob.Props, "C17") && pkgPathOf(u.Fn) == modPath+"/catalog/ser/openapi" {
+		if openapiReplayMemo == "" {
+			openapiReplayMemo = replayOpenAPI(eng)
+		}
+		return openapiReplayMemo
 	}
 	if hasProp(ob.Props, "C03") && !hasProp(ob.Props, "C01") && pkgPathOf(u.Fn) != modPath+"/scanner" {
 		if faultReplayMemo == "" {
